@@ -182,6 +182,11 @@ pub struct World {
     pub users: Vec<User>,
     pub positions: Vec<PosInfo>,
     pub bundles: Vec<BundleInfo>,
+    /// adversarial account choice: liquidity / fee-update instructions name another tick array OF THE SAME POOL for the position's
+    /// lower (0) / upper (1) bound, shifted by this many arrays, or the two arrays exchanged (2)
+    pub array_skew: Option<(u8, i32)>,
+    /// first three bytes of the next position / bundle mint keys (a valid SPL Multisig header m, n, is_initialized), see C04
+    pub mint_header: Option<[u8; 3]>,
 }
 
 pub const BIG_LAMPORTS: u64 = 1_000_000_000_000_000;
@@ -204,7 +209,7 @@ impl World {
             Acct { lamports: 1, data: bincode::serialize(&solana_program::rent::Rent::default()).unwrap(), owner: sysvar::ID, executable: false },
         );
         let admin = admin_key();
-        let mut w = World { bank, next: 1, admin, configs: vec![], pools: vec![], users: vec![], positions: vec![], bundles: vec![] };
+        let mut w = World { bank, next: 1, admin, configs: vec![], pools: vec![], users: vec![], positions: vec![], bundles: vec![], array_skew: None, mint_header: None };
         w.fund_sys(admin);
         w
     }
@@ -212,6 +217,18 @@ impl World {
     pub fn fresh_key(&mut self) -> Pubkey {
         self.next += 1;
         key(self.next)
+    }
+    /// key of a mint about to be created by the program (any key pair is possible; `mint_header` fixes its first three bytes)
+    pub fn fresh_mint_key(&mut self) -> Pubkey {
+        let k = self.fresh_key();
+        match self.mint_header {
+            Some(h) => {
+                let mut b = k.to_bytes();
+                b[..3].copy_from_slice(&h);
+                Pubkey::new_from_array(b)
+            }
+            None => k,
+        }
     }
     pub fn fund_sys(&mut self, k: Pubkey) {
         self.bank.set(k, Acct { lamports: BIG_LAMPORTS, data: vec![], owner: SYS, executable: false });
@@ -660,8 +677,7 @@ impl World {
     pub fn prep_open_position(&mut self, pool: usize, owner: usize, lower: i32, upper: i32, kind: PosKind) -> (Instruction, PosInfo) {
         let pl = self.pools[pool].clone();
         let ownerk = self.users[owner].key;
-        let mint = self.new_signer();
-        self.bank.accounts.remove(&mint);
+        let mint = self.fresh_mint_key();
         let (position, bump) = position_pda(&mint);
         match kind {
             PosKind::Plain => {
@@ -745,8 +761,7 @@ impl World {
 
     pub fn init_bundle(&mut self, owner: usize) -> Result<usize, Outcome> {
         let ownerk = self.users[owner].key;
-        let mint = self.new_signer();
-        self.bank.accounts.remove(&mint);
+        let mint = self.fresh_mint_key();
         let bundle = position_bundle_pda(&mint);
         let ta = ata_of(&ownerk, &mint, &TOKEN);
         let o = self.exec(&ixb(
@@ -841,10 +856,24 @@ impl World {
         }
     }
 
-    fn pos_arrays(&self, pos: usize) -> (Pubkey, Pubkey) {
+    /// start indexes of the arrays named for the position's bounds (honours `array_skew`)
+    pub fn pos_array_starts(&self, pos: usize) -> (i32, i32) {
         let p = &self.positions[pos];
         let pl = &self.pools[p.pool];
-        (tick_array_pda(&pl.key, array_start(p.lower, pl.tick_spacing)), tick_array_pda(&pl.key, array_start(p.upper, pl.tick_spacing)))
+        let n = 88 * pl.tick_spacing as i32;
+        let (mut sl, mut su) = (array_start(p.lower, pl.tick_spacing), array_start(p.upper, pl.tick_spacing));
+        match self.array_skew {
+            Some((0, k)) => sl = sl.saturating_add(k.saturating_mul(n)),
+            Some((1, k)) => su = su.saturating_add(k.saturating_mul(n)),
+            Some((2, _)) => std::mem::swap(&mut sl, &mut su),
+            _ => {}
+        }
+        (sl, su)
+    }
+    fn pos_arrays(&self, pos: usize) -> (Pubkey, Pubkey) {
+        let pk = self.pools[self.positions[pos].pool].key;
+        let (sl, su) = self.pos_array_starts(pos);
+        (tick_array_pda(&pk, sl), tick_array_pda(&pk, su))
     }
 
     fn modify_accounts_v1(&self, pos: usize) -> wa::ModifyLiquidity {
